@@ -2,7 +2,7 @@
    wf_parts, and the behaviour of the pinned code before the fix of Manifest.top_level_folders). *)
 From Coq Require Import String Ascii List Bool NArith.
 Import ListNotations.
-Require Import V.Lib.PyStr V.Ref.Model.
+Require Import V.Lib.PyStr V.Ref.Model V.Ref.Proofs.
 Open Scope string_scope.
 
 (* F9a: a file directly under the root directory is printed with a doubled slash *)
@@ -41,3 +41,27 @@ Theorem C09_nested_manifest_key_pinned_refuted :
     = Some "foo/bar/f.txt:ref".
 Proof. repeat split; vm_compute; reflexivity. Qed.
 Print Assumptions C09_nested_manifest_key_pinned_refuted.
+
+(* F9a, stated on the parts: the guard of wf_abs ("the directory part does not end with a separator") is necessary.
+   Both witnesses satisfy every other conjunct of wf_abs and do not round-trip: the root directory itself, and a
+   directory spelled with a trailing separator (the '//' spelling) *)
+Theorem C09_abs_guard_refuted :
+  exists p q, p = (None, "/", Some "file", "ref") /\ q = (None, "/a_s/", Some "", "loopref") /\
+    wf_abs p = false /\ wf_abs q = false /\
+    print_pref p = "//file:ref" /\ parse_full (print_pref p) None [] [] = Some (None, "//", Some "file", "ref") /\
+    print_pref q = "/a_s//:loopref" /\ parse_full (print_pref q) None [] [] = Some (None, "/a_s", Some "", "loopref").
+Proof. eexists; eexists. repeat split; vm_compute; reflexivity. Qed.
+Print Assumptions C09_abs_guard_refuted.
+
+(* the two classes excluded by nf_guard are not fixed points: parse (print (parse s)) <> parse s
+   (F9a: a file directly under the root gains a separator at every pass; F9e: a stage prefix in front of a variable
+   producer is dropped, which exposes a second stage prefix) *)
+Theorem C09_normal_form_guard_refuted :
+  exists s1 s2, s1 = "/file:ref" /\ s2 = "stage1.stage2.%(v)s:ref" /\
+    nf_guard s1 = false /\ nf_guard s2 = false /\
+    parse_full s1 None [] [] = Some (None, "/", Some "file", "ref") /\
+    parse_full (print_pref (None, "/", Some "file", "ref")) None [] [] = Some (None, "//", Some "file", "ref") /\
+    parse_full s2 None [] [] = Some (None, "stage2.%(v)s", None, "ref") /\
+    parse_full (print_pref (None, "stage2.%(v)s", None, "ref")) None [] [] = Some (None, "%(v)s", None, "ref").
+Proof. eexists; eexists. repeat split; vm_compute; reflexivity. Qed.
+Print Assumptions C09_normal_form_guard_refuted.
